@@ -200,6 +200,7 @@ def run_dimless(c, ctx, parse_text):
 # it stands for the pure number value*factor.
 
 KEY_FNARG = 'C18-function-argument-in-dimensionless-unit-taken-raw'
+KEY_NE = 'C18-inequality-without-tolerance'
 DIMLESS_UNITS = {'%': 0.01, 'ppth': 0.001, 'none': 1.0, 'custom-dozen': 12.0, 'ratio-cm-m': None}
 
 
@@ -273,3 +274,54 @@ def run_fnarg(c, ctx, parse_text):
                         known = KEY_FNARG
             devs.append(dev('function-argument:not-taken-as-the-pure-number-it-stands-for(%s)' % fn, dict(text=text, observed=obs, expected=exp, argument_as_pure_number=pure), known=known))
     return outcome(classes=classes, nontrivial=True, fp='fnarg ' + text, dev=devs, monitors=mon, sample=dict(text=text, expected=exp, observed=obs))
+
+
+# ------------------------------------------------------------------------------------------------ equality tolerance
+# "equality tolerant to 1e-6 relative": relative means relative - at every magnitude.  Operands are 3e-7 apart (equal) or
+# 1e-5 / 1e-4 apart (unequal), at magnitudes from 1e-3 to 2.5e6 and across units, so an absolute tolerance or a tolerance
+# applied before the unit conversion shows.  (Magnitudes stay >= 1e-4 in both units: numpy.isclose's absolute term 1e-8
+# plays no role.)
+
+def gen_eqtol(rng):
+    dim = rng.choice(list(UNITS))
+    (ua, fa), (ub, fb) = rng.choice([rng.sample(UNITS[dim], 2), [rng.choice(UNITS[dim])] * 2])
+    return dict(t='eqtol', ua=ua, ub=ub, x=rng.choice([2.5e6, 80000.0, 300.0, 3.0, 0.02, 1e-3]), d=rng.choice([3e-7, 3e-7, 1e-5, 1e-4, -3e-7, -1e-4]),
+                form=rng.choice(['bool-node', 'case', 'negated', 'not-equal', 'literal-right']))
+
+
+def run_eqtol(c, ctx, parse_text):
+    F = dict(sum(UNITS.values(), []))
+    x, d = c['x'], c['d']
+    equal = abs(d) <= 1e-6
+    yb = x * (1 + d) * F[c['ua']] / F[c['ub']]          # the same physical value, off by the relative distance d, written in ub
+    if yb < 1e-4 or yb > 1e12:
+        return outcome(skip='operand outside the magnitude window of this family')
+    if not equal and min(abs(x * d), abs(yb * d)) < 1e-6:
+        # numpy.isclose adds an absolute term of 1e-8: differences below 1e-6 are left out of the "must be unequal" side
+        return outcome(skip='difference too close to the absolute term of numpy.isclose')
+    L = ['a float = %r %s' % (x, c['ua']), 'b float = %r %s' % (yb, c['ub'])]
+    rhs = '{?b}' if c['form'] != 'literal-right' else '%r %s' % (yb, c['ub'])
+    if c['form'] in ('bool-node', 'literal-right'):
+        L.append('t bool = ("{?a} == %s")' % rhs); exp = equal
+    elif c['form'] == 'negated':
+        L.append('t bool = ("~({?a} == {?b})")'); exp = not equal
+    elif c['form'] == 'not-equal':
+        L.append('t bool = ("{?a} != {?b}")'); exp = not equal
+    else:
+        L += ['@case ("{?a} == {?b}")', '  t bool = true', '@else', '  t bool = false', '@end']; exp = equal
+    text = '\n'.join(L) + '\n'
+    classes = ['equality-tolerance', 'equality-tolerance:' + ('inside' if equal else 'outside'), 'equality-tolerance-magnitude:%g' % x,
+               'equality-tolerance:' + ('same-unit' if c['ua'] == c['ub'] else 'other-unit')]
+    devs, mon = [], dict(equality_tolerance_programs=1)
+    kind, res = parse_text(ctx, text)
+    obs = None
+    if kind != 'ok':
+        devs.append(dev('equality-tolerance:valid-program-rejected', dict(text=text, exc=repr(res)[:160])))
+    else:
+        obs = res.data().get('t')
+        if obs is None or bool(obs) != exp:
+            # buggy twin of the repaired finding: != compared the converted numbers exactly
+            known = KEY_NE if (c['form'] == 'not-equal' and equal and obs is not None and bool(obs) is True) else None
+            devs.append(dev('equality-tolerance:%s' % ('values-%s-apart-compare-%s' % ('%g' % abs(d), 'unequal' if equal else 'equal')),
+                            dict(text=text, relative_distance=d, magnitude=x, observed=None if obs is None else bool(obs), expected=exp), known=known))
+    return outcome(classes=classes, nontrivial=True, fp='eqtol ' + text, dev=devs, monitors=mon, sample=dict(text=text, expected=exp, observed=None if obs is None else bool(obs)))
